@@ -7,6 +7,7 @@ import (
 	"io"
 	"net"
 
+	"github.com/hashicorp/go-plugin/internal/verifhook"
 	"github.com/hashicorp/yamux"
 )
 
@@ -31,6 +32,7 @@ func newBlockedClientListener(session *yamux.Session, doneCh <-chan struct{}) *b
 func (b *blockedClientListener) Accept() (net.Conn, error) {
 	select {
 	case <-b.waitCh:
+		verifhook.Point("bcl.unblocked", b, 0, 0)
 		return b.session.Accept()
 	case <-b.doneCh:
 		return nil, io.EOF
